@@ -71,6 +71,10 @@ def main():
                     if rc == 1 and 'VIOLATION property=%s' % q in out:
                         ok, by = True, ('' if q == pid else ' by ' + q)
                         break
+                if not ok and meta.get('open_miss'):
+                    # a seeded change the checks do not catch and that was left open (documented in DESIGN 9.2): listed, not hidden
+                    print('%-4s %-40s MISSED, left open (%s)' % (pid, name, meta['open_miss']))
+                    continue
                 if not ok and meta.get('out_of_domain'):
                     # the change only shows on inputs on which the unchanged tree does not satisfy the property either (documented
                     # domain limit): no sound check can decide it -- listed, not counted
